@@ -192,7 +192,7 @@ reg('C07', plan=plan_c07, level='proof', min_obligations=100,
     design_ref='DESIGN.md §5 C07')
 
 def plan_c11(tier, seed):
-    return {'verus': [('u_dispatch', {})]}
+    return {'verus': [('u_dispatch', {}), ('u_xyb', {})]}
 reg('C11', plan=plan_c11, level='proof', min_obligations=40,
     title='Conversions are pointwise, order-preserving and layout-independent',
     technique='Verus loop invariants: the output of each plane loop is stated as a function of origin-relative samples (row-major index map, chroma index (y>>ss_y, x>>ss_x)), for all geometries',
@@ -200,10 +200,10 @@ reg('C11', plan=plan_c11, level='proof', min_obligations=40,
          '(x>>ss_x, y>>ss_y) of the origin-relative planes - hence independent of stride, padding and padding contents, and equal to the 1x1 conversion; ypbpr_to_ycbcr produces planes of size (w>>ss_x, h>>ss_y) '
          'whose luma plane is the pointwise quantisation of the input; sources are borrowed immutably (frame condition by typing); results are spec functions of the inputs (determinism). '
          'The per-pixel loops of yuv_to_rgb, transform_primaries, LinearRgb<->Hsl are verified as in-place maps of one per-pixel function (index-loop form, same per-element expression); '
-         'every TryFrom/From body copies width and height through (contracts on all 18 conversion impls). Chroma-block membership of each subsampled chroma sample, the XYB per-pixel loops and the transfer flatten are not under contract here.',
+         'every TryFrom/From body copies width and height through (contracts on all 18 conversion impls). the two XYB per-image functions are verified as per-pixel maps too (U-xyb, exact reals). Chroma-block membership of each subsampled chroma sample and the transfer flatten are not under contract here.',
     note='Assumed: ' + '; '.join(PLANES_ASSUME) + '. ' + TOOLS,
     assumptions=PLANES_ASSUME,
-    not_decided=['each subsampled chroma sample equals the chroma of a pixel of its own block (last_uv_pos skipping) - not proved', 'pointwise-ness of the XYB iterator loops and of the from_raw_parts_mut flatten in transfer.rs (bounded Kani harness only)'],
+    not_decided=['each subsampled chroma sample equals the chroma of a pixel of its own block (last_uv_pos skipping) - not proved', 'pointwise-ness of the from_raw_parts_mut flatten in transfer.rs (bounded Kani harness only)'],
     design_ref='DESIGN.md §5 C11')
 
 def plan_c12(tier, seed):
@@ -305,28 +305,29 @@ reg('C03', plan=plan_c03, level='proof', min_obligations=100,
 KX = ('src/rgb_xyb.rs', 'k_rgb_xyb.rs', 'verif_kani_rgb_xyb')
 
 # ------------------------------------------------------------------------------------------- C04 / C05 (XYB)
-XYB_ND = ['the per-image glue of linear_rgb_to_xyb / xyb_to_linear_rgb (iterator loops: clamp at 0, cbrtf, bias subtraction, un-mix, cube, inline mat-vec) is not under contract (a one-pixel relational Kani query with six symbolic cbrtf did not finish in 25 min)',
-          'accuracy of cbrtf (see C18) and f32 rounding: the 2e-6 / 5e-5 budgets are not machine-checked']
+XYB_ND = ['accuracy of cbrtf (see C18) and f32 rounding: the 2e-6 / 5e-5 budgets are decided only under exact-real semantics with cbrtf as an (ideal) uninterpreted cube root']
 def plan_c04(tier, seed):
     hs = [H('opsin_total', domain='all f32 triples', desc='opsin_absorbance + mixed_to_xyb: no panic/overflow'),
           H('opsin_unit_cube_positive', domain='[0,1]^3', desc='mixes finite, >= 0.003 (normal positive argument for cbrtf), <= 1.01')]
     return {'verus': [('u_xyb', {})], 'kani': [{'crate_dir': '', 'inject': [KX], 'harnesses': hs}]}
 reg('C04', plan=plan_c04, level='proof', min_obligations=60,
-    title='Linear RGB->XYB: opsin mix and X/Y/B mixing equal the JPEG XL definition (cube-root glue and budget not decided)',
-    technique='Verus exact-real contracts on the real opsin_absorbance / mixed_to_xyb and the extracted constants vs the libjxl digits of the statement',
+    title='Linear RGB->XYB equals the JPEG XL opsin definition (exact reals, cbrtf uninterpreted)',
+    technique='Verus exact-real contracts on the real linear_rgb_to_xyb (whole per-image function), opsin_absorbance, mixed_to_xyb and the extracted constants vs the libjxl digits of the statement',
     text='Exact-real proof (Verus) on the real kernels: opsin_absorbance(rgb)[i] = sum_j A[i][j]*rgb[j] + b over the code\'s own constants, which equal libjxl\'s matrix within 1e-7 and bias within 1e-8, '
-         'with every row summing to exactly 1 and three equal biases; mixed_to_xyb(m) = ((m0-m1)/2, (m0+m1)/2, m2). Bit-precise (Kani) totality and positivity of the mixes on the unit cube. '
-         'NOT decided: the clamp/cbrtf/bias glue inside the per-image loop and the 2e-6 budget.',
+         'with every row summing to exactly 1 and three equal biases; mixed_to_xyb(m) = ((m0-m1)/2, (m0+m1)/2, m2); and the whole linear_rgb_to_xyb (index-loop form of its iterator loops) returns, for every pixel i, '
+         'X=(L-M)/2, Y=(L+M)/2, B=S with (L,M,S) = cbrt(max(0, A*rgb+b)) - cbrt(b), same length, where cbrt is the (uninterpreted) value of cbrtf. Bit-precise (Kani) totality and positivity of the mixes on the unit cube. '
+         'NOT decided: the 2e-6 budget under f32 rounding and the accuracy of cbrtf.',
     note=EXACT + '; ' + BITPRECISE + '. ' + TOOLS, assumptions=[EXACT, BITPRECISE], not_decided=XYB_ND, design_ref='DESIGN.md §5 C04')
 def plan_c05(tier, seed):
     hs = [H('xyb_inverse_one_pixel_total', bounded='Vec length 1', domain='one pixel, all f32 triples', desc='xyb_to_linear_rgb total (no panic/overflow), length preserved')]
     return {'verus': [('u_xyb', {})], 'kani': [{'crate_dir': '', 'inject': [KX], 'harnesses': hs}]}
 reg('C05', plan=plan_c05, level='proof', min_obligations=40,
-    title='XYB->linear RGB: the inverse literals invert the forward literals (loop body and budget not decided)',
-    technique='Verus exact-rational lemma over the extracted constants: residual INV*A - I has row sums <= 3e-6; NEG bias = -bias',
+    title='XYB->linear RGB inverts the forward XYB transform (exact reals, ideal cube root)',
+    technique='Verus exact-real contracts on the real xyb_to_linear_rgb and linear_rgb_to_xyb + round-trip lemma: with an ideal cube root the composition is p + (INV*A - I)p, residual entries <= 1e-6',
     text='Exact proof (Verus, rational arithmetic on the literals extracted from the source on every run) that E = INVERSE_OPSIN_ABSORBANCE_MATRIX * OPSIN_ABSORBANCE_MATRIX - I has |E_ij| <= 1e-6 for all entries and that '
          'NEG_OPSIN_ABSORBANCE_BIAS = -OPSIN_ABSORBANCE_BIAS: with an ideal cube root the exact round trip of p in [0,1]^3 is p + E*p, error <= 3e-6 < 5e-5, so the inverse agrees with the forward constants rather than a stale set. '
-         'A changed significant digit of any of the 18 literals breaks a residual lemma. NOT decided: the loop body of xyb_to_linear_rgb and f32 rounding / cbrtf accuracy.',
+         'A changed significant digit of any of the 18 literals breaks a residual lemma. The whole xyb_to_linear_rgb (un-mix, subtract cbrt(-bias), cube, add -bias, inverse matrix; index-loop form) is under contract, and lemma_round_trip proves that '
+         'for p in [0,1]^3 the composition with linear_rgb_to_xyb returns p within 3e-6 when cbrtf is an ideal odd cube root (hypotheses stated explicitly). NOT decided: f32 rounding and the accuracy of cbrtf.',
     note=EXACT + '. ' + TOOLS, assumptions=[EXACT], not_decided=XYB_ND, design_ref='DESIGN.md §5 C05')
 
 # ------------------------------------------------------------------------------------------- C06
